@@ -395,8 +395,9 @@ func runHistories(run *Run, cfg histCfg) (*TraceSummary, []*StoreRec) {
 					size := 1 + r.Intn(len(stores)+1)
 					var pages [][]IDRef
 					token := ""
+					nameFilter := pick(r, []string{"", "", "same-name", "other-name"}) // live stores of that name only, deleted ones never
 					for guard := 0; guard < 100; guard++ {
-						resp, err := env.S.ListStores(ctx, &openfgav1.ListStoresRequest{PageSize: pageSize(size), ContinuationToken: token})
+						resp, err := env.S.ListStores(ctx, &openfgav1.ListStoresRequest{PageSize: pageSize(size), ContinuationToken: token, Name: nameFilter})
 						if err != nil {
 							run.Inconclusive("list stores: %v", err)
 						}
@@ -409,7 +410,7 @@ func runHistories(run *Run, cfg histCfg) (*TraceSummary, []*StoreRec) {
 							break
 						}
 					}
-					rec.Add(map[string]any{"e": "ListStores", "size": size, "pages": pages})
+					rec.Add(map[string]any{"e": "ListStores", "size": size, "pages": pages, "name": nameFilter})
 					run.Evals++
 					run.Nontrivial(hashOf([]any{backend, "liststores", size, len(stores)}))
 				case "getstore":
